@@ -26,6 +26,11 @@ HINTS = {
  "handon": "This time prefer a defect in what the code HANDS ON TO A LATER STEP (a URL, query string, token, redirect target, patch location, BaseURL or template it writes into a response and later has to understand again; a value one method stores for another method of the same object) so that each response or call looks fine on its own and only following it up exposes the problem.",
 }
 ORDER = ["source", "handon", "state", "numeric", "rare", "two", "time", "shape"]
+# kinds handed out in round h before the prompt files of that round were regenerated (the files on disk show
+# the second pick for these properties)
+EXTRA_USED = {"C01": ["source"], "C02": ["handon"], "C03": ["state"], "C04": ["numeric"], "C06": ["time"],
+              "C07": ["shape"], "C09": ["source"], "C12": ["numeric"], "C14": ["time"], "C15": ["shape"],
+              "C19": ["state"], "C20": ["numeric"]}
 
 
 def main():
@@ -41,6 +46,7 @@ def main():
             for k, h in HINTS.items():
                 if h[:60] in s:
                     used.add(k)
+        used |= set(EXTRA_USED.get(pid, []))
         rot = ORDER[i % len(ORDER):] + ORDER[:i % len(ORDER)]
         kind = next((k for k in rot if k not in used), rot[0])
         earlier = []
